@@ -268,12 +268,12 @@ func genChainWalk(r *rand.Rand, n int) []Step {
 			st = append(st, Step{"a": "levOpen", "u": u, "p": float64(1), "sz": pick(r, "1000000", "s1", "s2"), "lev": pick(r, "1.5", "2", "5", "9")})
 			nextLev++
 		case 10:
-			st = append(st, Step{"a": "levClose", "u": u, "id": float64(1 + r.Intn(nextLev)), "frac": pick(r, "one", "third", "all")})
+			st = append(st, Step{"a": "levClose", "u": u, "id": float64(1 + r.Intn(nextLev)), "frac": pick(r, "one", "third", "all", "allbut1")})
 		case 11, 12:
 			st = append(st, Step{"a": "perpOpen", "u": u, "p": float64(1), "side": pick(r, "long", "long", "short"), "coll": pick(r, "uusdc", "trading"), "sz": pick(r, "1000000", "s1", "s2"), "lev": pick(r, "2", "3", "5", "0")})
 			nextPerp++
 		case 13:
-			st = append(st, Step{"a": "perpClose", "u": u, "id": float64(1 + r.Intn(nextPerp)), "frac": pick(r, "third", "all")})
+			st = append(st, Step{"a": "perpClose", "u": u, "id": float64(1 + r.Intn(nextPerp)), "frac": pick(r, "third", "all", "allbut1", "one")})
 		case 14:
 			reqs := []any{[]any{pick(r, users...), float64(1 + r.Intn(nextPerp))}}
 			st = append(st, Step{"a": "perpClosePositions", "u": "bot", pick(r, "liq", "sl", "tp"): reqs})
